@@ -327,30 +327,47 @@ func runC05(c *eng.Ctx) {
 	// ---- 6. GUARD: Get reads only validated sequences ---------------------------------------
 	c.Rule("GUARD", qT+".Get", func() {
 		get := c.Fn(qT + ".Get")
-		val := c.One(get, eng.CallTo(qT+".validateSequence"), "call of validateSequence")
 		reads := c.Some(get, eng.Any(invokeOn("", "ReadUint64", "ReadUint32", "ReadBytes", "GetPage")), "page reads")
+		seq := ssa.Value(get.Params[1])
+		isSeq := func(v ssa.Value) bool {
+			return v == seq || eng.DependsOn(v, func(x ssa.Value) bool { return x == seq }) && !eng.DependsOn(v, func(x ssa.Value) bool { _, isCall := x.(*ssa.Call); return isCall })
+		}
+		isPos := func(v ssa.Value, field string) bool {
+			return eng.DependsOn(v, func(x ssa.Value) bool {
+				in, ok := x.(ssa.Instruction)
+				return ok && eng.LoadField(qT+"."+field)(p, in)
+			})
+		}
+		// edges on which the requested sequence is known to be out of range: sequence > appended, or sequence <= acknowledged
+		beyond := eng.EdgesWithFact(get, func(ft eng.Fact) bool {
+			return ft.Y != nil && (ft.Op == "lt" && isPos(ft.X, "appendedSeq") && isSeq(ft.Y))
+		})
+		behind := eng.EdgesWithFact(get, func(ft eng.Fact) bool {
+			return ft.Y != nil && (ft.Op == "le" && isSeq(ft.X) && isPos(ft.Y, "acknowledgedSeq"))
+		})
+		c.Check(len(beyond) > 0, "tests-appended", nil, get, "Get compares the requested sequence with the appended position", "no branch on sequence > appendedSeq")
+		c.Check(len(behind) > 0, "tests-acknowledged", nil, get, "Get compares the requested sequence with the acknowledged position", "no branch on sequence <= acknowledgedSeq")
 		for i, r := range reads {
-			ok, why := eng.OkDominates(get, val.Instr, r.Instr)
-			c.Check(ok, fmt.Sprintf("read[%d]", i), r.Instr, get, "pages are touched only after validateSequence returned nil", why)
+			bad := ""
+			for _, e := range append(append([]eng.Edge{}, beyond...), behind...) {
+				first := e.B.Succs[e.Succ].Instrs[0]
+				if _, ok := eng.PathExists(eng.PathQuery{Fn: get, After: first, Target: func(in ssa.Instruction) bool { return in == r.Instr }}); ok || first == r.Instr {
+					bad = "reachable after the out-of-range outcome at " + p.InstrPos(first)
+				}
+			}
+			c.Check(bad == "", fmt.Sprintf("read[%d]", i), r.Instr, get, "pages are touched only for acknowledged < sequence <= appended: no page read is reachable once the sequence was found out of range", bad)
+			// and the tests are not skippable: every path to a read passes both tests
+			for _, set := range [][]eng.Edge{beyond, behind} {
+				var tests []eng.Site
+				for _, e := range set {
+					tests = append(tests, eng.Site{Fn: e.B.Parent(), Instr: e.B.Instrs[len(e.B.Instrs)-1]})
+				}
+				c.Check(len(tests) > 0 && eng.DominatedBy(get, r.Instr, tests, nil), fmt.Sprintf("read-tested[%d]", i), r.Instr, get, "every path to a page read passes the range tests", "a read is reachable without the range test")
+			}
 		}
-		vs := c.Fn(qT + ".validateSequence")
-		facts := p.MustFacts(vs)
-		n := 0
-		for _, r := range eng.SuccessReturns(vs) {
-			fs := facts.At(r)
-			le := facts.Find(fs, "le", eng.DescIs("sequence"), eng.DescSuffix(".appendedSeq"))
-			lt := facts.Find(fs, "lt", eng.DescSuffix(".acknowledgedSeq"), eng.DescIs("sequence"))
-			c.Check(len(le) > 0 && len(lt) > 0, fmt.Sprintf("validate-success[%d]", n), r, vs,
-				"validateSequence returns nil only under ack < sequence <= appended",
-				"facts at the success return: "+strings.Join(facts.Render(fs), " ; "))
-			n++
-		}
-		if n == 0 {
-			c.Undecided("validateSequence has no success return")
-		}
-		ls := p.Locks(vs, nil)
-		for i, s := range p.Sites(vs, eng.LoadField(qT+".appendedSeq", qT+".acknowledgedSeq")) {
-			c.Check(ls.At(s.Instr).HasField(qMu, false), fmt.Sprintf("validate-locked[%d]", i), s.Instr, vs, "positions are read under queue.rwMutex", "read without the lock")
+		ls := p.Locks(get, nil)
+		for i, s := range c.Some(get, eng.LoadField(qT+".appendedSeq", qT+".acknowledgedSeq"), "position reads in Get") {
+			c.Check(ls.At(s.Instr).HasField(qMu, false), fmt.Sprintf("validate-locked[%d]", i), s.Instr, get, "positions are read under queue.rwMutex", "read without the lock")
 		}
 	})
 
@@ -648,6 +665,7 @@ func layoutQueueMeta(c *eng.Ctx) {
 	p := c.P
 	// every metaPage.PutUint64(v, off) in package queue on a *queue receiver: classify v
 	offs := map[string]map[int64]bool{"appended": {}, "ack": {}}
+	eitherOffs := map[int64]bool{}
 	n := 0
 	for _, f := range p.FuncsWithPrefix("pkg/queue.") {
 		if !strings.HasPrefix(p.FuncKey(f), qT+".") && p.FuncKey(f) != "pkg/queue.NewQueue" {
@@ -678,6 +696,15 @@ func layoutQueueMeta(c *eng.Ctx) {
 					}
 				}
 			}
+			// a reset stores ONE value into both positions: a write of that value may go to either slot (which one is decided by
+			// the other writers); it is counted, not classified
+			if both := sameValueIntoBothPositions(p, f); both != nil && eng.DependsOn(args[0], func(x ssa.Value) bool { return x == both }) &&
+				!strings.Contains(d, "appendedSeq") && !strings.Contains(d, "acknowledgedSeq") {
+				eitherOffs[off] = true
+				n++
+				c.Check(true, fmt.Sprintf("meta-write:%s:both@%d", p.FuncKey(f), off), s.Instr, f, "meta page write of a value stored into both positions", "")
+				continue
+			}
 			if role == "" {
 				c.Check(false, "meta-write-role:"+p.FuncKey(f), s.Instr, f, "every meta page write stores the appended or the acknowledged sequence", "unclassified value "+d)
 				continue
@@ -701,6 +728,12 @@ func layoutQueueMeta(c *eng.Ctx) {
 	}
 	ao, ok1 := one(offs["appended"])
 	ko, ok2 := one(offs["ack"])
+	for o := range eitherOffs {
+		c.Check(ok1 && ok2 && (o == ao || o == ko), fmt.Sprintf("reset-writes-a-known-slot@%d", o), nil, nil, "a reset writes its value into the appended slot and the acknowledged slot", fmt.Sprintf("offset %d is neither %d nor %d", o, ao, ko))
+	}
+	if len(eitherOffs) > 0 {
+		c.Check(len(eitherOffs) == 2, "reset-writes-both-slots", nil, nil, "a reset of both positions writes both slots", fmt.Sprintf("%v", eitherOffs))
+	}
 	c.Check(ok1 && ok2 && (ao+8 <= ko || ko+8 <= ao), "meta-offsets-disjoint", nil, nil,
 		"all writers put the appended sequence at one offset and the ack at another, 8 bytes apart at least",
 		fmt.Sprintf("appended offsets %v, ack offsets %v", offs["appended"], offs["ack"]))
@@ -718,4 +751,20 @@ func layoutQueueMeta(c *eng.Ctx) {
 		c.Check(len(reads) == 1 && reads[0].width == 8 && reads[0].off == want && reads[0].base == "", "restore:"+role, s.Instr, is,
 			"reopen restores the "+role+" sequence from the offset the writers use", fmt.Sprintf("reads %v, writers use %d", reads, want))
 	}
+}
+
+// sameValueIntoBothPositions: f stores one and the same value into queue.appendedSeq and queue.acknowledgedSeq (a reset);
+// returns that value.
+func sameValueIntoBothPositions(p *eng.Prog, f *ssa.Function) ssa.Value {
+	var va, vk ssa.Value
+	for _, st := range p.Sites(f, eng.StoreField(qT+".appendedSeq")) {
+		va, _ = storedValue(st.Instr)
+	}
+	for _, st := range p.Sites(f, eng.StoreField(qT+".acknowledgedSeq")) {
+		vk, _ = storedValue(st.Instr)
+	}
+	if va != nil && vk != nil && va == vk {
+		return va
+	}
+	return nil
 }
